@@ -921,7 +921,13 @@ spifconf_parse_line(FILE * fp, spif_charptr_t buff)
       case '\0':
           SPIFCONF_PARSE_RET();
       case '%':
-          if (!BEG_STRCASECMP(spiftool_get_pword(1, buff + 1), "include ")) {
+          /* (spiftool_get_pword() returns NULL when nothing follows the percent sign.) */
+          if (!spiftool_get_pword(1, buff + 1)) {
+              if (file_peek_skip()) {
+                  SPIFCONF_PARSE_RET();
+              }
+              spifconf_shell_expand((spif_charptr_t) buff);
+          } else if (!BEG_STRCASECMP(spiftool_get_pword(1, buff + 1), "include ")) {
               spif_charptr_t path;
               FILE *fp;
 
